@@ -75,6 +75,24 @@ def fam_goto(tier, rng):
                     else:
                         p = prog([tok(b, "m0"), b.call("P", []), tok(b, "m1")], [sub("P", [], body)])
                     out.append({"fam": "goto-loop:%s/%s/%s/%s" % (k1, k2, land, where), "prog": p})
+    # the label sits inside another construct (IF, SELECT, WHILE, DO, FOR) within an enclosing FOR; the GOTO comes from a
+    # deeper FOR: the enclosing loops keep their own counter, limit and step
+    for mk in ("if", "ifelse", "select", "while", "dotopwhile", "dobotuntil", "for+", "for-"):
+        for k0 in ("for+", "for-"):
+            for where in ("main", "sub"):
+                b = B()
+                c1, c3 = var("C1", "I"), var("C3", "I")
+                # the inner loop has its own, different limit and step
+                inner = [b.for_(c3, lit("I", 10), lit("I", 50), lit("I", 10),
+                                [b.if_([(bin_("=", c3, lit("I", 20)), [tok(b, "jump"), b.goto("OUT2")])]), tok(b, "i3", c3)])]
+                mbody = [tok(b, "m", c1)] + inner + [tok(b, "skipped"), b.label("OUT2"), tok(b, "t", c1, c3)]
+                obody = [tok(b, "o", c1)] + wrap(b, mk, mbody, 2) + [tok(b, "o2", c1)]
+                body = wrap(b, k0, obody, 1) + [tok(b, "done", c1, c3)]
+                if where == "main":
+                    p = prog(body)
+                else:
+                    p = prog([tok(b, "m0"), b.call("P", []), tok(b, "m1")], [sub("P", [], body)])
+                out.append({"fam": "goto-frames:%s/%s/%s" % (k0, mk, where), "prog": p})
     return out
 
 
@@ -236,7 +254,8 @@ def fam_trap(tier, rng):
                                        (bin_("=", var("C1", "I"), lit("I", 5)), [tok(b, "wrong-elseif")])], [tok(b, "wrong-else")])]
                     else:
                         core = wrap(b, host, body, 1)
-                    tail = [tok(b, "after", var("Q", "I")), b.label("FIN"), tok(b, "fin"), b.end()]
+                    # ERR is shown again after the recovery: every form of RESUME clears it
+                    tail = [tok(b, "after", var("Q", "I")), b.label("FIN"), tok(b, "fin", {"k": "err"}), b.end()]
                     if mode == "none":
                         main = pre + core + tail
                     elif mode == "onerrornext":
